@@ -87,8 +87,9 @@ func abstractTyped(v attribute.Value) (int, bool) {
 	return 0, false
 }
 
-// retypePool (random driver): in one scenario of three every present value n of the pool becomes a typed
-// value of a random scalar / list / bool-free type, so the pool holds many text twins (same n, other type).
+// retypePool (random driver): in one scenario of three the pool is rebuilt from typed values: every set takes
+// the numbers n of its own or (half of the time) of an earlier set and gives each present value a random type,
+// so the pool holds many text twins (same numbers under every key, other types).  Sets stay pairwise distinct.
 func retypePool(r *rand.Rand, pool []map[string]int, res *vh.Result) {
 	if r.Intn(3) != 0 {
 		return
@@ -97,16 +98,27 @@ func retypePool(r *rand.Rand, pool []map[string]int, res *vh.Result) {
 	if r.Intn(3) == 0 {
 		types = []int{1, 2, 3, 4, 5}
 	}
+	ks := []string{"a", "b", "c"}
+	base := make([][3]int, len(pool))
+	for i, a := range pool {
+		base[i] = [3]int{a["a"], a["b"], a["c"]}
+	}
 	seen := map[[3]int]bool{}
-	twins := map[[3]int]bool{}
-	for _, a := range pool {
-		var txt, typ [3]int
-		for {
-			for j, k := range []string{"a", "b", "c"} {
-				txt[j], typ[j] = a[k], 0
-				if a[k] > 0 {
-					typ[j] = types[r.Intn(len(types))]*typedBase + a[k]
-					if typ[j]/typedBase >= 4 {
+	texts := map[[3]int]bool{}
+	for i, a := range pool {
+		var typ, txt [3]int
+		for try := 0; ; try++ {
+			src := base[i]
+			if i > 0 && try < 4 && r.Intn(2) == 0 {
+				src = base[r.Intn(i)]
+			}
+			for j := range ks {
+				typ[j], txt[j] = 0, 0
+				if src[j] > 0 {
+					t := types[r.Intn(len(types))]
+					typ[j] = t*typedBase + src[j]
+					txt[j] = src[j]
+					if t >= 4 {
 						txt[j] += 500
 					}
 				}
@@ -116,11 +128,11 @@ func retypePool(r *rand.Rand, pool []map[string]int, res *vh.Result) {
 			}
 		}
 		seen[typ] = true
-		if twins[txt] {
+		if texts[txt] {
 			res.Count("random_text_twin_sets", 1)
 		}
-		twins[txt] = true
-		for j, k := range []string{"a", "b", "c"} {
+		texts[txt] = true
+		for j, k := range ks {
 			a[k] = typ[j]
 		}
 	}
